@@ -24,10 +24,20 @@ import (
 )
 
 const (
-	verifDir = "/verif"
-	repoDir  = "/repo"
-	goBin    = "go1.26.8"
+	repoDir = "/repo"
+	goBin   = "go1.26.8"
 )
+
+// verifDir is the directory holding MANIFEST.json: the working directory when
+// it has one (background runs work on a snapshot), /verif otherwise.
+var verifDir = func() string {
+	if wd, err := os.Getwd(); err == nil {
+		if _, err := os.Stat(filepath.Join(wd, "MANIFEST.json")); err == nil {
+			return wd
+		}
+	}
+	return "/verif"
+}()
 
 type RunSpec struct {
 	Prop      string `json:"prop"`
